@@ -642,6 +642,12 @@ def inst_cfgs():
                 return REJECT
             cfg(name, lambda T=T, an=allow_none: T(A, allow_none=an), dom,
                 model, "A0", kind=nm)
+    # class given by (qualified) name: resolved lazily, on first use
+    cfg("Instance('props.lattice.A')",
+        lambda: Instance("props.lattice.A", allow_none=False),
+        lambda s: isinstance(s, A),
+        lambda v: ("same", v) if isinstance(v, A) else REJECT, "A0",
+        kind="Instance-byname")
     for adapt in ("no", "yes", "default"):
         for allow_none in (True, False):
             name = "Instance(IFoo,adapt=%s,allow_none=%s)" % (adapt,
@@ -740,6 +746,7 @@ MEMBERS = [
     "Range(None,2.0,xl=0,xh=1)", "Range(-1.5,None,xl=1,xh=0)",
     "Enum(1, 2, 3)", "Enum('a', 'b')", "Map", "Tuple(Int,Str)",
     "Instance(A,allow_none=True)", "Instance(A,allow_none=False)",
+    "Instance('props.lattice.A')",
     "Instance(IFoo,adapt=yes,allow_none=False)",
     "Supports(IFoo,allow_none=False)", "AdaptsTo(IFoo,allow_none=False)",
     "Type(A,allow_none=False)", "Callable(allow_none=False)",
